@@ -225,8 +225,10 @@ struct Pipeline {
             ref_ok = true;
         } catch (ref::Malformed& e) {
             V("C02", "I02/malformed-cbor", mo.name + ": " + e.what());
+            V("C13", "I12/closed-output-not-a-complete-file", mo.name + ": " + e.what());
         } catch (ref::SchemaError& e) {
             V("C02", "I02/schema", mo.name + ": " + e.what());
+            V("C13", "I12/closed-output-not-a-complete-file", mo.name + ": " + e.what());
         }
         // the library's own reader
         CDNS::FilePreamble rpre;
